@@ -116,6 +116,38 @@ def _(e):
     return "innerprod", X.innerprod, (Y,), {}, X, {"how": how}
 
 
+for _ver in (None, 1, 2):
+    for _skip in (None, 0, 1):
+        def _mkTtsv(ver, skip):
+            @row(f"tensor.ttsv(version={ver}, skip_dim={skip}):modes-not-all-as-long-as-the-vector", (2, 3))
+            def _(e, ver=ver, skip=skip):
+                # one mode longer / shorter than the others (the vector fits the first mode), or a cubical tensor and a vector of another length
+                n = int(e.rng.integers(2, 4))
+                shp = [n] * e.N
+                c = int(e.rng.integers(0, 3))
+                vlen = n
+                mult = list(range(0 if skip is None else skip + 1, e.N))      # the modes that are multiplied
+                if not mult:
+                    return None
+                if c == 1 and len(mult) < 2:
+                    c = 0
+                if c == 0:
+                    shp[mult[int(e.rng.integers(0, len(mult)))]] = n + 1
+                elif c == 1:
+                    # two multiplied modes of half and twice the length: the number of entries is that of a cubical tensor
+                    n = [2, 4][int(e.rng.integers(0, 2))]
+                    shp = [n] * e.N
+                    vlen = n
+                    shp[mult[-1]], shp[mult[-2]] = n * 2, n // 2
+                else:
+                    vlen = n + 1
+                X = with_shape(e, shp).tensor()
+                kw = {} if ver is None else {"version": ver}
+                args = (gen.normals(e.rng, (vlen,)),) + (() if skip is None else (skip,))
+                return "tensor.ttsv", X.ttsv, args, kw, X, {"what": ["one-mode-longer", "products-agree", "vector-length"][c]}
+        _mkTtsv(_ver, _skip)
+
+
 # ---- B. element-wise operators on different shapes -------------------------------------------------
 for _k in ("sptensor",):
     for _o in ("add", "sub", "mul", "truediv", "eq", "ne", "lt", "le", "gt", "ge"):
